@@ -564,7 +564,8 @@ def check_qh(ctx, rep):
 def check_pv(ctx, rep):
     prog = ctx.prog
     for q in ("NetModel::xTopology", "NetModel::yTopology"):
-        f = prog.func1(CQ + q)
+        from .common import forwarding_target
+        f, _env = forwarding_target(ctx, prog.func1(CQ + q))
         calls = [x for x in walk(f.body) if x.get("kind") == "CXXMemberCallExpr" and callee_info(x)["qname"] == CQ + "NetModel::addNet"]
         if not calls:
             rep.unknown("PV", f.decl, f, "addNet call", "no NetModel::addNet call found")
